@@ -682,6 +682,15 @@ def check_call(res, spec, origin, form, visname, vis, kwname, kw, ndir, Q=None):
 
         def make(k):
             return reg.as_artist(origin=_origin_obj(origin, form), **k)
+        # history: on every second case (deterministic) the same region object has already produced an artist
+        # with *other* caller keywords; nothing of that earlier call may show in the artist under test
+        import zlib
+        if zlib.crc32(repr((sorted(spec.items(), key=str), list(origin), visname, kwname)).encode()) % 2 == 0:
+            prime = {'patch': {'edgecolor': 'magenta', 'linewidth': 9, 'fill': True},
+                     'line': {'edgecolor': 'magenta', 'linewidth': 9},
+                     'point': {'markeredgecolor': 'magenta', 'markersize': 19},
+                     'text': {'color': 'magenta', 'fontsize': 19}}.get(kind, {})
+            _call(lambda: make(prime))
     artist, exc = _call(lambda: make(kw))
     res.transitions += 1
     if exc is not None:
